@@ -290,11 +290,15 @@ def run(ctx):
     # runtime part: same UUID on every call, in every goroutine (sequential answers vs 64 goroutines at once)
     conc = vc.hrows(["-mode", "uuidconc", "-seed", str(ctx.seed), "-n", "400" if thorough else "40"])
     for r in conc:
+        if r.get("fresh_wrong", 0) > 0:
+            ctx.violation({"kind": "property-violated-by-implementation", "class": "uuid-differs-on-concurrent-first-call",
+                           "explain": "%d goroutines released together on a fresh value: some first call reports another UUID than a later sequential call" % r.get("fresh_goroutines", 0),
+                           "failing_input": {"fresh_values": r["fresh_values"], "wrong": r["fresh_wrong"], "examples": r["fresh_examples"]}})
         if r["wrong"] > 0:
             ctx.violation({"kind": "property-violated-by-implementation", "class": "uuid-differs-under-concurrency",
                            "explain": "UUID() re-computed from %d goroutines at once differs from the sequentially computed UUID of the same value" % r["goroutines"],
                            "failing_input": {"calls": r["calls"], "wrong": r["wrong"], "examples": r["examples"]}})
-    ctx.cov["concurrent_uuid"] = [{k: v for k, v in r.items() if k != "examples"} for r in conc]
+    ctx.cov["concurrent_uuid"] = [{k: v for k, v in r.items() if k not in ("examples", "fresh_examples")} for r in conc]
     if True:
         # a lighter concurrent run under the race detector (16 goroutines, literals up to 32 KiB)
         import subprocess
